@@ -58,7 +58,7 @@ Proof.
   destruct (lookup i (l_objs s)) as [o|] eqn:Hl; [|exact Hi].
   pose proof (objs_lookup clok _ _ _ Hi Hl) as Ho.
   assert (Ho1 : clok (fst (if w then sys_write o (op_len p - op_sofar p) else sys_read o (op_len p - op_sofar p)))).
-  { destruct w; [rewrite sys_write_bits; exact Ho|apply sys_read_cl; exact Ho]. }
+  { destruct w; [destruct (sys_write_fields o (op_len p - op_sofar p)) as (A1 & A2 & A3 & A4 & A5 & A6 & A7); apply (clok_bits o); assumption|apply sys_read_cl; exact Ho]. }
   destruct (if w then sys_write o (op_len p - op_sofar p) else sys_read o (op_len p - op_sofar p)) as [o1 r].
   cbn [fst] in Ho1.
   destruct r.
@@ -204,7 +204,7 @@ Proof.
   - exact H1.
   - change (l_objs s1) with (l_objs s). destruct (lookup i (l_objs s)) as [ob|] eqn:Hl; [|exact H1].
     apply cl_set_obj; [exact H1|]. pose proof (objs_lookup clok _ _ _ Hi Hl) as Ho.
-    destruct p; [| destruct (o_kind ob) | | |]; try exact Ho; apply (clok_bits ob); auto.
+    destruct p; [| destruct (o_kind ob) | | | |]; try exact Ho; apply (clok_bits ob); auto.
   - exact H1.
   - apply exec_cl. exact H1.
   - apply exec_cl. exact H1.
